@@ -43,6 +43,49 @@ pub fn verify_all(pk: &[u8; 32], msg: &[u8], sig: &[u8; 64], ctx: &[u8], has_ctx
     o
 }
 
+/// Batch verification is specified (C13) for keys and R that are canonical encodings of points of the
+/// prime-order subgroup: there it must equal the conjunction of the single verifications. Outside that domain
+/// the randomised equation multiplies torsion components by coefficients reduced mod l, so batch and single
+/// verification may legitimately differ (e.g. an order-4 key with R = identity, S = 0 and k = 0 mod 4: single
+/// accepts, batch need not). There only the error classes are asserted: mismatched lengths, a non-canonical S,
+/// an undecodable R or key must give Err; and never a panic. (The first oracle demanded agreement everywhere:
+/// a false alarm met by seed 7 of the C15 quick tier, see DESIGN.md 7.1.)
+pub fn oracle_batch(req: &crate::req::Req, got: &Resp) -> Result<(), String> {
+    let want = match exec("sig.batch", &req.a) {
+        Some(w) => w,
+        None => return Err("no model".into()),
+    };
+    if *got == want {
+        return Ok(());
+    }
+    let a = &req.a;
+    // in the specified domain (or malformed request / undecodable key): strict
+    let (wb, gb) = match (&want, got) {
+        (Resp::Ok(w), Resp::Ok(g)) if w.len() == g.len() => (w, g),
+        _ => return Err(format!("sig.batch: model expects {} but the code returned {}", want.short(), got.short())),
+    };
+    let sigs: Vec<[u8; 64]> = a[2].chunks(64).map(a64).collect();
+    let keys: Vec<[u8; 32]> = a[3].chunks(32).map(a32).collect();
+    let n = u16::from_le_bytes([a[0][0], a[0][1]]) as usize;
+    let canonical_prime_order = |e: &[u8; 32]| match Aff::decompress(e) {
+        Some(p) => p.is_torsion_free() && p.compress() == *e,
+        None => false,
+    };
+    let r_undecodable = sigs.iter().any(|s| Aff::decompress(&a32(&s[..32])).is_none());
+    let s_noncanonical = sigs.iter().any(|s| U256::from_le(&a32(&s[32..])) >= crate::model::sc::l());
+    let mismatch = n != sigs.len() || sigs.len() != keys.len();
+    let in_domain = keys.iter().all(canonical_prime_order) && sigs.iter().all(|s| canonical_prime_order(&a32(&s[..32])));
+    if in_domain || mismatch || r_undecodable || s_noncanonical {
+        return Err(format!("sig.batch: model expects {} but the code returned {}", want.short(), got.short()));
+    }
+    // outside the domain: any consistent verdict (all calls equal) is allowed
+    if gb.iter().all(|x| *x == gb[0]) && gb[0] <= 1 && wb.len() == gb.len() {
+        Ok(())
+    } else {
+        Err(format!("sig.batch: repeated calls disagree: {}", got.short()))
+    }
+}
+
 pub fn exec(op: &str, a: &[Vec<u8>]) -> Option<Resp> {
     macro_rules! need {
         ($e:expr) => {
